@@ -855,6 +855,54 @@ pub fn prefix_record(args: &[String]) {
 	println!("{}", json!({"kind":"summary","events":n}));
 }
 
+/// `yv ind-dyn-replay <configs.ndjson> <seed>` — C11: the dynamically dispatched configuration behaves like the static one on
+/// EVERY configuration (valid or not; the rows are MC_IndParams' deviations from the default), for every entry point:
+/// validate, name, size, init (Ok / Err), over on slices of 0, 1 and 6 candles (Ok with equal results / Err).
+pub fn dyn_replay(args: &[String]) {
+	let rows = read_lines(&args[0]);
+	let seed: u64 = arg(args, 1, "seed");
+	let mut out = Sink::new();
+	let mut rng = Rng::new(seed ^ 0xd1a);
+	let mut g = Gen::new(rng.u64(), true);
+	g.no_zero_volume = true;
+	let cs: Vec<Candle> = (0..6).map(|_| g.candle()).collect();
+	let kind = |r: &Result<Result<Vec<IndicatorResult>, Error>, String>| -> Value {
+		match r {
+			Ok(Ok(v)) => json!({"ok": v.iter().map(result_bits).collect::<Vec<_>>()}),
+			Ok(Err(_)) => json!("err"),
+			Err(_) => json!("panic"),
+		}
+	};
+	for r in &rows {
+		let name = r["ind"].as_str().unwrap();
+		let mut c = default_cfg(name);
+		let mut applied = Vec::new();
+		for st in r["sets"].as_array().unwrap() {
+			let (f, t) = (st["field"].as_str().unwrap(), st["text"].as_str().unwrap());
+			if let Ok(Ok(())) = catch(|| c.set(f, t.to_string())) {
+				applied.push(format!("{f}={t}"));
+			}
+		}
+		let d = c.dyn_cfg();
+		let ctx = || json!({"deviation": applied.join(","), "cfg": c.to_json()});
+		out.cmp(&format!("{name}:dyn-contract:value"), ctx, &json!([c.name(), c.size().0, c.size().1, catch(|| c.validate()).ok()]),
+			&json!([d.name(), d.size().0, d.size().1, catch(|| d.validate()).ok()]));
+		let si = match catch(|| c.init(&cs[0])) { Ok(Ok(_)) => "ok", Ok(Err(_)) => "err", Err(_) => "panic" };
+		let di = match catch(|| d.init(&cs[0])) { Ok(Ok(_)) => "ok", Ok(Err(_)) => "err", Err(_) => "panic" };
+		out.cmp(&format!("{name}:dyn-init:value"), ctx, &json!(si), &json!(di));
+		if si == "panic" {
+			continue; // (C10's finding; the bulk calls would panic alike)
+		}
+		for n in [0usize, 1, 6] {
+			let sl = cs[..n].to_vec();
+			let so = catch(|| c.over(&sl));
+			let dd = catch(|| d.over(&sl));
+			out.cmp(&format!("{name}:dyn-over:value"), || json!({"deviation": applied.join(","), "cfg": c.to_json(), "candles": n}), &kind(&so), &kind(&dd));
+		}
+	}
+	out.summary(json!({"configs": rows.len()}));
+}
+
 /// class of a panic message (the site inside the crate that gave up)
 fn panic_class(msg: &str) -> &'static str {
 	if msg.contains("PeriodType overflow") {
